@@ -91,7 +91,7 @@ def gen_gz_cases(rng, quick):
         return bytes(rng.choice(b'ab') if compressible else rng.randrange(256) for _ in range(n))
     cases = [[b'hello\n', b''], [b'', b''], [b''], [b'x'], [b'hello\n'], [b'a' * 70000], [b'a' * 70000, b''],
              [b'abc' * 30000, b'z'], [b'q' * 10, b'', b''], [b'', b'q' * 10]]
-    for _ in range(20 if quick else 400):
+    for _ in range(20 if quick else 150):
         k = rng.randint(1, 3)
         cases.append([rand_bytes(rng.choice([0, 0, 1, 5, 50, 300, 5000, 70000]), rng.random() < 0.7) for _ in range(k)])
     for members in cases:
@@ -120,9 +120,9 @@ def gen_oracles(rng, quick):
                 if quick and via and (swap or mode not in (0, 2)):
                     continue
                 lines.append('o_trunc\t%s %d %d %d %d %d' % (T, mode, swap, rng.choice([1, 19, 75]), rng.randrange(6), via))
-            for rep in range(2 if quick else 40):
+            for rep in range(2 if quick else 12):
                 lines.append('o_fuzz\t%s %d %d %d %d %d' % (T, mode, swap, rng.choice([0, 0, 1, 2]), rng.randint(0, 10 ** 6),
-                                                             60 if quick else 400))
+                                                             60 if quick else 300))
     return lines
 
 
